@@ -20,6 +20,7 @@ every update is skipped keeps `(0,0)`, which is improper (mean `1/0`); that `pro
 rate cannot fire; finiteness in floating point (overflow is not modelled).
 -/
 import TsdateVerif.Proofs.EPProper
+import TsdateVerif.Proofs.EPGen
 
 namespace Tsdate.C05
 open Tsdate Tsdate.EP
@@ -33,6 +34,42 @@ theorem rescale_range (x : α × α) (s : α) (hs : 1 < s) (hx0 : 0 < x.1 + 1) (
     0 < rescale x s ∧ rescale x s ≤ 1 ∧ 1 / s ≤ 1 + rescale x s * x.1 ∧ 1 + rescale x s * x.1 ≤ s ∧
       0 < rescale x s * x.2 :=
   EP.rescale_range x s hs hx0 hx1
+
+/-- `rescale_range` for the kernel **regenerated from the current source** (`Gen/Kernels._rescale`, rewritten by
+the translator on every run), under the regenerated assert predicate `pre__rescale` for a non-zero argument. -/
+theorem rescale_range_generated (F : Tsdate.Kernels.SpecFns α) (x : α × α) (s : α) (hs : 1 < s)
+    (hx : x ≠ 0) (hpre : Tsdate.Gen.Kernels.pre__rescale F x s = true) :
+    0 < Tsdate.Gen.Kernels._rescale F x s ∧ Tsdate.Gen.Kernels._rescale F x s ≤ 1 ∧
+      1 / s ≤ 1 + Tsdate.Gen.Kernels._rescale F x s * x.1 ∧ 1 + Tsdate.Gen.Kernels._rescale F x s * x.1 ≤ s ∧
+      0 < Tsdate.Gen.Kernels._rescale F x s * x.2 := by
+  rw [gen_pre_rescale_eq, rescaleOk_iff] at hpre
+  rw [gen_rescale_eq]
+  rcases hpre with h0 | hp
+  · exact absurd h0 hx
+  · exact EP.rescale_range x s hs hp.1 hp.2
+
+/-- `damp_range` for the regenerated `_damp`: whenever its regenerated assert predicate `pre__damp` holds on a
+non-zero posterior, the step is in `(0,1]` and the cavity keeps the fraction `s` of shape and rate. -/
+theorem damp_range_generated (F : Tsdate.Kernels.SpecFns α) (x y : α × α) (s : α) (hx : x ≠ 0)
+    (hpre : Tsdate.Gen.Kernels.pre__damp F x y s = true) :
+    0 < Tsdate.Gen.Kernels._damp F x y s ∧ Tsdate.Gen.Kernels._damp F x y s ≤ 1 ∧
+      (x.1 + 1) * s ≤ x.1 + 1 - Tsdate.Gen.Kernels._damp F x y s * y.1 ∧
+      x.2 * s ≤ x.2 - Tsdate.Gen.Kernels._damp F x y s * y.2 := by
+  rw [gen_pre_damp_eq] at hpre
+  rw [gen_damp_eq]
+  unfold dampOk at hpre
+  rw [Bool.or_eq_true] at hpre
+  rcases hpre with h | h
+  · rw [Bool.and_eq_true] at h
+    exact absurd ((pIsZero_iff x).1 h.2) hx
+  · simp only [Bool.and_eq_true, decide_eq_true_iff] at h
+    exact EP.damp_range x y s h.1.1.1.1.1 h.1.1.1.1.2 h.1.1.1.2 h.1.1.2
+
+/-- The regenerated `approximate_gamma_mom` returns a proper gamma with exactly the requested moments. -/
+theorem gamma_mom_exact_generated (F : Tsdate.Kernels.SpecFns α) (mn va : α) (hm : 0 < mn) (hv : 0 < va) :
+    Proper (Tsdate.Gen.Kernels.approximate_gamma_mom F mn va) ∧
+      momentsOf (Tsdate.Gen.Kernels.approximate_gamma_mom F mn va) = (mn, va) := by
+  rw [gen_gamma_mom_eq]; exact gammaMom_proper mn va hm hv
 
 /-- When the shape exceeds the cap the stored shape is exactly `max_shape` (the cap is met, not just respected). -/
 theorem rescale_caps_exactly (x : α × α) (s : α) (hs : 1 < s) (h : s < 1 + x.1) :
